@@ -215,3 +215,171 @@ Proof.
       rewrite (Zf 0), (Zf (Z.of_nat nz)) by auto. reflexivity. }
   reflexivity.
 Qed.
+
+(* ================================================================== 2D: marching squares *)
+From Sdfx Require Import Render.MS.
+
+Lemma zsum_pair (g : Z -> Z) n :
+  zsum (cellsZ n) (fun i => g i + g (i + 1)) = 2 * zsum (cellsZ (S n)) g - g 0 - g (Z.of_nat n).
+Proof.
+  induction n as [|n IH].
+  { change (cellsZ 0) with (@nil Z). change (cellsZ 1) with [0]. rewrite zsum_cons, !zsum_nil. change (Z.of_nat 0) with 0. ring. }
+  rewrite cellsZ_S, zsum_app, IH, zsum_cons, zsum_nil.
+  rewrite (cellsZ_S (S n)), zsum_app, zsum_cons, zsum_nil.
+  replace (Z.of_nat (S n)) with (Z.of_nat n + 1) by lia. ring.
+Qed.
+Lemma zsum_indicator (a : Z -> Z) k n :
+  zsum (cellsZ n) (fun i => if i =? k then a i else 0) = if (0 <=? k) && (k <? Z.of_nat n) then a k else 0.
+Proof.
+  induction n as [|n IH].
+  - cbn. destruct (0 <=? k) eqn:E1; cbn [andb]; [|reflexivity]. destruct (k <? 0) eqn:E2; [lia | reflexivity].
+  - rewrite cellsZ_S, zsum_app, IH, zsum_cons, zsum_nil.
+    destruct (Z.of_nat n =? k) eqn:E.
+    + apply Z.eqb_eq in E. subst k.
+      replace (0 <=? Z.of_nat n) with true by (symmetry; apply Z.leb_le; lia).
+      replace (Z.of_nat n <? Z.of_nat n) with false by (symmetry; apply Z.ltb_ge; lia).
+      replace (Z.of_nat n <? Z.of_nat (S n)) with true by (symmetry; apply Z.ltb_lt; lia). cbn [andb]. ring.
+    + apply Z.eqb_neq in E. destruct (0 <=? k); cbn [andb]; [|ring].
+      destruct (k <? Z.of_nat n) eqn:E1, (k <? Z.of_nat (S n)) eqn:E2; try ring;
+        rewrite ?Z.ltb_lt, ?Z.ltb_ge in *; lia.
+Qed.
+
+Definition cfg2_at (sgn : pt2 -> bool) (p : pt2) : N :=
+  sq_of_bools (sgn (addp2 p (sq_corner_off 0))) (sgn (addp2 p (sq_corner_off 1)))
+              (sgn (addp2 p (sq_corner_off 2))) (sgn (addp2 p (sq_corner_off 3))).
+Lemma cfg2_at_lt sgn p : (cfg2_at sgn p < 16)%N.
+Proof. unfold cfg2_at. apply sq_of_bools_spec. Qed.
+
+Definition spt (d u : Z) : pt2 := if d =? 0 then (0, u) else (u, 0).
+Definition sigG2 (sgn : pt2 -> bool) (d : Z) (q : pt2) : N :=
+  (b2n2 (sgn (addp2 q (spt d 0))) + 2 * b2n2 (sgn (addp2 q (spt d 1))))%N.
+
+Lemma sidesig_bools b0 b1 b2 b3 :
+  let c := sq_of_bools b0 b1 b2 b3 in
+  sidesig 0 0 c = (b2n2 b0 + 2 * b2n2 b3)%N /\ sidesig 0 1 c = (b2n2 b1 + 2 * b2n2 b2)%N /\
+  sidesig 1 0 c = (b2n2 b0 + 2 * b2n2 b1)%N /\ sidesig 1 1 c = (b2n2 b3 + 2 * b2n2 b2)%N.
+Proof. destruct b0, b1, b2, b3; vm_compute; repeat split. Qed.
+
+Lemma sidesig_cfg2_at sgn p d : d = 0 \/ d = 1 ->
+  sidesig d 0 (cfg2_at sgn p) = sigG2 sgn d p /\ sidesig d 1 (cfg2_at sgn p) = sigG2 sgn d (addp2 p (unit2 d)).
+Proof.
+  intros Hd. unfold cfg2_at.
+  pose proof (sidesig_bools (sgn (addp2 p (sq_corner_off 0))) (sgn (addp2 p (sq_corner_off 1)))
+              (sgn (addp2 p (sq_corner_off 2))) (sgn (addp2 p (sq_corner_off 3)))) as S.
+  cbv zeta in S. destruct S as (S00 & S01 & S10 & S11). destruct p as [px py].
+  destruct Hd as [-> | ->]; rewrite ?S00, ?S01, ?S10, ?S11;
+    unfold sigG2, spt, unit2, addp2, sq_corner_off; simpl; rewrite ?Z.add_0_r; split; reflexivity.
+Qed.
+
+Definition cell_mesh2 (sgn : pt2 -> bool) (p : pt2) : list seg := map (shiftS p) (cell_lines (cfg2_at sgn p)).
+Definition cells2 (nx ny : nat) : list pt2 := flat_map (fun x => map (fun y => (x, y)) (cellsZ ny)) (cellsZ nx).
+Definition mesh2 (nx ny : nat) (sgn : pt2 -> bool) : list seg := flat_map (cell_mesh2 sgn) (cells2 nx ny).
+
+Definition boundary_outside2 (nx ny : nat) (sgn : pt2 -> bool) : Prop :=
+  forall x y, 0 <= x <= Z.of_nat nx -> 0 <= y <= Z.of_nat ny ->
+    (x = 0 \/ x = Z.of_nat nx \/ y = 0 \/ y = Z.of_nat ny) -> sgn (x, y) = false.
+
+Lemma sq_cell_table_ok : forallb sq_cell_check sq_cfgs = true.
+Proof. vm_compute. reflexivity. Qed.
+Lemma xpat_is_xor : forallb (fun d => forallb (fun sg => xpat d sg =? (if xorb (N.testbit sg 0) (N.testbit sg 1) then 1 else 0))
+                                            [0; 1; 2; 3]%N) [0; 1] = true.
+Proof. vm_compute. reflexivity. Qed.
+
+(* per-side term: weight of the lattice edge (q, other axis) seen from vertex v *)
+Definition A2 (sgn : pt2 -> bool) (d : Z) (q : pt2) (v : gv2) : Z :=
+  if gv2_eqb v (shiftv2 q (fvert d)) then xpat d (sigG2 sgn d q) else 0.
+
+Lemma gv2_eqb_shift p v w : gv2_eqb (shiftv2 (negp2 p) v) w = gv2_eqb v (shiftv2 p w).
+Proof.
+  destruct (gv2_eqb v (shiftv2 p w)) eqn:E.
+  - apply gv2_eqb_eq in E. subst v. apply gv2_eqb_eq. apply shiftv2_neg.
+  - destruct (gv2_eqb (shiftv2 (negp2 p) v) w) eqn:E2; [|reflexivity].
+    apply gv2_eqb_eq in E2. subst w. rewrite shiftv2_neg' in E.
+    rewrite (proj2 (gv2_eqb_eq v v) eq_refl) in E. discriminate.
+Qed.
+Lemma shiftv2_add p q v : shiftv2 p (shiftv2 q v) = shiftv2 (addp2 p q) v.
+Proof. destruct p, q, v as [[x y] a]; unfold shiftv2, addp2; cbn [fst snd]. f_equal. f_equal; lia. Qed.
+
+Lemma deg2_shift p l v : deg2 (map (shiftS p) l) v = deg2 l (shiftv2 (negp2 p) v).
+Proof.
+  unfold deg2. change (shiftS p) with (@mapE gv2 gv2 (shiftv2 p)).
+  apply (deg_map_bij gv2_eqb gv2_eqb_eq); [apply shiftv2_neg | apply shiftv2_neg'].
+Qed.
+
+Lemma cell_degree sgn p v :
+  deg2 (cell_mesh2 sgn p) v =
+  (A2 sgn 0 p v + A2 sgn 0 (addp2 p (unit2 0)) v) + (A2 sgn 1 p v + A2 sgn 1 (addp2 p (unit2 1)) v).
+Proof.
+  unfold cell_mesh2. rewrite deg2_shift.
+  rewrite (sq_cell_check_sound _ (forallb_sq_cfgs _ sq_cell_table_ok _ (cfg2_at_lt sgn p))).
+  destruct (sidesig_cfg2_at sgn p 0) as [L0 U0]; [auto|].
+  destruct (sidesig_cfg2_at sgn p 1) as [L1 U1]; [auto|].
+  unfold rhs2, wsum. cbn [flat_map map fold_right app fst snd].
+  rewrite L0, U0, L1, U1, !gv2_eqb_shift, !shiftv2_add. unfold A2. ring.
+Qed.
+
+Lemma deg2_zsum {A} (f : A -> list seg) l v : deg2 (flat_map f l) v = zsum l (fun x => deg2 (f x) v).
+Proof. apply deg_flat_map. Qed.
+
+Lemma A2_outside sgn d q v : d = 0 \/ d = 1 ->
+  sgn (addp2 q (spt d 0)) = false -> sgn (addp2 q (spt d 1)) = false -> A2 sgn d q v = 0.
+Proof.
+  intros Hd H0 H1. unfold A2, sigG2. rewrite H0, H1. destruct (gv2_eqb _ _); [|reflexivity].
+  destruct Hd as [-> | ->]; vm_compute; reflexivity.
+Qed.
+
+(* number of sign-changing lattice edges equal to v (0 or 1) *)
+Definition crossing_at (nx ny : nat) (sgn : pt2 -> bool) (v : gv2) : Z :=
+  let '(x, y, a) := v in
+  if a =? 1 then (if (0 <=? x) && (x <? Z.of_nat (S nx)) && ((0 <=? y) && (y <? Z.of_nat ny)) then xpat 0 (sigG2 sgn 0 (x, y)) else 0)
+  else if a =? 0 then (if (0 <=? x) && (x <? Z.of_nat nx) && ((0 <=? y) && (y <? Z.of_nat (S ny))) then xpat 1 (sigG2 sgn 1 (x, y)) else 0)
+  else 0.
+
+Lemma zsum_const_mul {A} (l : list A) f c : zsum l (fun x => c * f x) = c * zsum l f.
+Proof. induction l as [|x l IH]; [cbn; ring|]. rewrite !zsum_cons, IH. ring. Qed.
+
+Lemma A2_indicator sgn d v n m : d = 0 \/ d = 1 ->
+  zsum (cellsZ n) (fun x => zsum (cellsZ m) (fun y => A2 sgn d (x, y) v)) =
+  let '(vx, vy, a) := v in
+  if a =? (if d =? 0 then 1 else 0)
+  then (if (0 <=? vx) && (vx <? Z.of_nat n) && ((0 <=? vy) && (vy <? Z.of_nat m)) then xpat d (sigG2 sgn d (vx, vy)) else 0)
+  else 0.
+Proof.
+  intros Hd. destruct v as [[vx vy] a].
+  rewrite (zsum_ext _ _ (fun x => if x =? vx then
+            (if (0 <=? vy) && (vy <? Z.of_nat m) then (if a =? (if d =? 0 then 1 else 0) then xpat d (sigG2 sgn d (x, vy)) else 0) else 0) else 0)).
+  - rewrite zsum_indicator. destruct (a =? (if d =? 0 then 1 else 0)); destruct ((0 <=? vx) && (vx <? Z.of_nat n)); cbn [andb];
+      destruct ((0 <=? vy) && (vy <? Z.of_nat m)); reflexivity.
+  - intros x _.
+    rewrite (zsum_ext _ _ (fun y => if y =? vy then (if x =? vx then (if a =? (if d =? 0 then 1 else 0) then xpat d (sigG2 sgn d (x, y)) else 0) else 0) else 0)).
+    + rewrite zsum_indicator. destruct (x =? vx); destruct ((0 <=? vy) && (vy <? Z.of_nat m)); reflexivity.
+    + intros y _. unfold A2, shiftv2, fvert, addp2, gv2_eqb. cbn [fst snd]. rewrite !Z.add_0_r.
+      rewrite (Z.eqb_sym vx x), (Z.eqb_sym vy y).
+      destruct (x =? vx), (y =? vy); cbn [andb]; reflexivity.
+Qed.
+
+Theorem mesh2_degree nx ny sgn : boundary_outside2 nx ny sgn ->
+  forall v, deg2 (mesh2 nx ny sgn) v = 2 * crossing_at nx ny sgn v.
+Proof.
+  intros B v. unfold mesh2. rewrite deg2_zsum. unfold cells2. rewrite zsum_flat_map.
+  rewrite (zsum_ext _ _ (fun x =>
+     (zsum (cellsZ ny) (fun y => A2 sgn 0 (x, y) v) + zsum (cellsZ ny) (fun y => A2 sgn 0 (x + 1, y) v))
+     + zsum (cellsZ ny) (fun y => A2 sgn 1 (x, y) v + A2 sgn 1 (x, y + 1) v))).
+  2:{ intros x _. rewrite zsum_map, <- !zsum_add. apply zsum_ext; intros y _.
+      rewrite cell_degree. unfold addp2, unit2. cbn [Z.eqb fst snd]. rewrite !Z.add_0_r. reflexivity. }
+  rewrite zsum_add.
+  rewrite (zsum_pair (fun x => zsum (cellsZ ny) (fun y => A2 sgn 0 (x, y) v))).
+  assert (X : forall x, x = 0 \/ x = Z.of_nat nx -> zsum (cellsZ ny) (fun y => A2 sgn 0 (x, y) v) = 0).
+  { intros x Hx. apply zsum_zero; intros y Hy. apply in_cellsZ in Hy.
+    apply A2_outside; [auto|..]; unfold addp2, spt; cbn [Z.eqb fst snd]; apply B; lia. }
+  rewrite (X 0), (X (Z.of_nat nx)) by auto.
+  rewrite (zsum_ext (cellsZ nx) _ (fun x => 2 * zsum (cellsZ (S ny)) (fun y => A2 sgn 1 (x, y) v))).
+  2:{ intros x Hx. apply in_cellsZ in Hx. rewrite (zsum_pair (fun y => A2 sgn 1 (x, y) v)).
+      assert (Y : forall y, y = 0 \/ y = Z.of_nat ny -> A2 sgn 1 (x, y) v = 0).
+      { intros y Hy. apply A2_outside; [auto|..]; unfold addp2, spt; cbn [Z.eqb fst snd]; apply B; lia. }
+      rewrite (Y 0), (Y (Z.of_nat ny)) by auto. ring. }
+  rewrite zsum_const_mul, (A2_indicator sgn 0 v (S nx) ny), (A2_indicator sgn 1 v nx (S ny)) by auto.
+  unfold crossing_at. destruct v as [[vx vy] a]. cbn [Z.eqb].
+  destruct (a =? 1) eqn:E1; destruct (a =? 0) eqn:E0; try ring.
+  apply Z.eqb_eq in E1, E0. lia.
+Qed.
